@@ -78,7 +78,17 @@ impl Default for Plan {
     }
 }
 
-/// Wrapper that logs the drop of a source object.
+fn pa_str<E>(r: &Result<PostAction, E>) -> &'static str {
+    match r {
+        Ok(PostAction::Continue) => "cont",
+        Ok(PostAction::Reregister) => "rereg",
+        Ok(PostAction::Disable) => "disable",
+        Ok(PostAction::Remove) => "remove",
+        Err(_) => "err",
+    }
+}
+
+/// Wrapper that logs the drop of a source object and the bracket of every `process_events` call.
 struct Traced<S> {
     k: usize,
     inner: S,
@@ -100,7 +110,10 @@ impl<S: EventSource> EventSource for Traced<S> {
     where
         F: FnMut(Self::Event, &mut Self::Metadata) -> Self::Ret,
     {
-        self.inner.process_events(r, t, cb)
+        self.log.borrow_mut().push(format!("pe {}", self.k));
+        let res = self.inner.process_events(r, t, cb);
+        self.log.borrow_mut().push(format!("peret {} {}", self.k, pa_str(&res)));
+        res
     }
     fn register(&mut self, poll: &mut Poll, tf: &mut TokenFactory) -> calloop::Result<()> {
         self.inner.register(poll, tf)
@@ -142,25 +155,43 @@ impl<const LIFE: bool> EventSource for Custom<LIFE> {
     where
         F: FnMut(usize, &mut ()) -> Self::Ret,
     {
-        let mut action = PostAction::Continue;
-        for (j, sub) in self.subs.iter_mut().enumerate() {
-            let a = sub.process_events(r, t, |_, _| cb(j, &mut ()))?;
-            action |= a;
-        }
-        Ok(action)
+        self.log.borrow_mut().push(format!("pe {}", self.k));
+        let mut go = || -> Result<PostAction, std::io::Error> {
+            let mut action = PostAction::Continue;
+            for (j, sub) in self.subs.iter_mut().enumerate() {
+                let a = sub.process_events(r, t, |_, _| cb(j, &mut ()))?;
+                action |= a;
+            }
+            Ok(action)
+        };
+        let res = go();
+        self.log.borrow_mut().push(format!("peret {} {}", self.k, pa_str(&res)));
+        res
     }
 
     fn register(&mut self, poll: &mut Poll, tf: &mut TokenFactory) -> calloop::Result<()> {
         for j in 0..self.subs.len() {
-            if self.plan.borrow().reg_fail == Some(j) {
-                self.log.borrow_mut().push(format!("reg {} register sub={} err", self.k, j));
-                return Err(injected());
-            }
-            let r = self.subs[j].register(poll, tf);
+            let r = if self.plan.borrow().reg_fail == Some(j) {
+                Err(injected())
+            } else {
+                self.subs[j].register(poll, tf)
+            };
             self.log
                 .borrow_mut()
                 .push(format!("reg {} register sub={} {}", self.k, j, if r.is_ok() { "ok" } else { "err" }));
-            r?;
+            if let Err(e) = r {
+                // a well-behaved composite source rolls its partial registration back
+                for i in (0..j).rev() {
+                    let u = self.subs[i].unregister(poll);
+                    self.log.borrow_mut().push(format!(
+                        "reg {} unregister sub={} {}",
+                        self.k,
+                        i,
+                        if u.is_ok() { "ok" } else { "err" }
+                    ));
+                }
+                return Err(e);
+            }
         }
         Ok(())
     }
@@ -556,6 +587,7 @@ fn exec_op(w: &Rc<World>, op: &str, _in_cb: bool) {
         return;
     }
     let num = |i: usize| -> usize { t.get(i).and_then(|s| s.parse().ok()).unwrap_or(0) };
+    say(w, format!("> {}", op));
     match t[0] {
         "new" => {
             let k = num(1);
@@ -941,10 +973,20 @@ fn run_case(lines: &[String], out: &mut impl Write, tick_ms: u64) {
         }
     };
     // logical time 0 is the middle of tick window 0
-    exec_op(&w, "advance 0", false);
+    {
+        let target = w.t0 + w.tick / 2;
+        let now = Instant::now();
+        if target > now {
+            std::thread::sleep(target - now);
+        }
+    }
+    log.borrow_mut().clear();
     for line in lines {
         let line = line.trim();
         let t: Vec<&str> = line.split_whitespace().collect();
+        if t[0] == "script" || t[0] == "idlescript" || t[0] == "dispatch" {
+            say(&w, format!("> {}", line));
+        }
         let res = catch_unwind(AssertUnwindSafe(|| match t[0] {
             "script" => {
                 // script K N|* : body
